@@ -45,6 +45,7 @@ type Op struct {
 	LabelOK  bool       `json:"label_ok"`
 	RemoteOK bool       `json:"remote_ok"`
 	Batch    []BatchMsg `json:"batch,omitempty"`
+	Flags    string     `json:"flags,omitempty"` // append: flag list, e.g. `\\Seen \\Deleted`
 	Names    []string   `json:"names,omitempty"` // statecreate: mailboxes announced through connector.IMAPStateWrite.CreateMailbox
 	Sess     int        `json:"sess,omitempty"`
 }
@@ -53,6 +54,9 @@ func (o Op) String() string {
 	fl := ""
 	switch o.Kind {
 	case "append":
+		if o.Flags != "" {
+			return fmt.Sprintf("append(%s,(%s),L%d,%s)", o.Name, o.Flags, o.Lit, o.Remote)
+		}
 		return fmt.Sprintf("append(%s,L%d,%s)", o.Name, o.Lit, o.Remote)
 	case "copy", "move":
 		if !o.CreateOK {
@@ -279,6 +283,8 @@ type Config struct {
 	// BurnStep is added to Burn for every further incarnation (restart): with a positive step the values generated
 	// after a restart lie above everything generated before it.
 	BurnStep int
+	// Dedup: the scripted remote de-duplicates (hconn.Conn.Dedup)
+	Dedup bool
 	// Epoch offset in seconds: the generator's epoch start is now - EpochAgo.
 	EpochAgo int
 }
@@ -335,6 +341,7 @@ func NewWorld(cfg Config, lits *Literals) (*World, error) {
 		return nil, err
 	}
 	w.Conn = hconn.New([]string{"user"}, "pass")
+	w.Conn.Dedup = cfg.Dedup
 	if err := w.start(""); err != nil {
 		return nil, err
 	}
@@ -531,7 +538,12 @@ func (w *World) Do(o Op) (Obs, error) {
 		if !o.RemoteOK {
 			fail("CreateMailbox")
 		}
-		return obsOf(c.Cmd("CREATE " + imapc.Quote(o.Name)))
+		ob, err := obsOf(c.Cmd("CREATE " + imapc.Quote(o.Name)))
+		if err == nil && ob.Class != "ok" {
+			// the connector announces every mailbox it has (its echo): a refused CREATE must not have left anything there
+			w.Conn.Announce(60 * time.Second)
+		}
+		return ob, err
 	case "delete":
 		if !o.RemoteOK {
 			fail("DeleteMailbox")
@@ -554,7 +566,7 @@ func (w *World) Do(o Op) (Obs, error) {
 		case "size":
 			w.Conn.SetFailNext("CreateMessage", connector.ErrMessageSizeExceedsLimits)
 		}
-		r, err := c.Append(o.Name, "", w.Lits.Bytes[o.Lit])
+		r, err := c.Append(o.Name, o.Flags, w.Lits.Bytes[o.Lit])
 		ob, err := obsOf(r, err)
 		if err != nil {
 			return ob, err
